@@ -116,3 +116,58 @@ func VxH07proc() {
 	vxAssert(kind == "returned", "C07.k-fitting-tasks-of-one-process-run-simultaneously")
 	vxAssert(vxInvCount() == k, "C07.every-task-ran-once")
 }
+
+// VxH06over: k ready tasks of one process, each asking for c cores, on max slots; the
+// commands are rendezvous commands (each waits until all k have started). The real
+// Workflow.Run decides: if the k tasks fit (k*c <= max) the run completes — they really ran
+// at the same time; if they do not fit, they can never all be running, so the run must not
+// complete (it blocks, which the executor reports as a deadlock). Optionally the workflow
+// also contains a streaming pair. The host's CPU count is an input (runtime.NumCPU).
+func VxH06over() {
+	k := vxGet("k")
+	c := vxConcrete(vxInt("cores", 1, 2))
+	max := vxConcrete(vxInt("max", 2, 4))
+	stream := vxGet("stream") == 1
+	vxAssume(c <= max)
+	vxSetEnv("SCIPIPE_BUFSIZE", "2")
+	vxCmdFree(false, false)
+	wf := newWorkflowWithoutLogging("w", max)
+	p := NewProc(wf, "p", "vcmd b:"+string(rune('0'+k))+" w:{o:out} n:{p:x}")
+	p.SetOut("out", "o{p:x}.txt")
+	p.CoresPerTask = c
+	p.InParam("x").FromStr([]string{"1", "2", "3", "4"}[:k]...)
+	if stream {
+		prod := NewProc(wf, "prod", "vcmd w:{os:s}")
+		prod.SetOut("s", "s.txt")
+		cons := NewProc(wf, "cons", "vcmd r:{i:in} w:{o:out}")
+		cons.SetOut("out", "s.c.txt")
+		cons.In("in").From(prod.Out("s"))
+	}
+	vxPreemptBudget(vxGet("preempt"))
+	kind := vxRun(func() { wf.Run() })
+	vxReach("ran")
+	if k*c > max {
+		vxAssert(kind == "deadlock", "C06.tasks-that-do-not-fit-never-run-together")
+	} else if !stream {
+		vxAssert(kind == "returned", "C07.k-fitting-tasks-of-one-process-run-simultaneously")
+	}
+}
+
+// VxH07go: the same for Go-function tasks (CustomExecute): k tasks of one process that fit
+// into the slots execute at the same time.
+func VxH07go() {
+	k := vxGet("k")
+	wf := newWorkflowWithoutLogging("w", k)
+	p := NewProc(wf, "g", "# {p:x}")
+	n := 0
+	p.CustomExecute = func(t *Task) {
+		vxBarrier(k)
+		n++
+	}
+	p.InParam("x").FromStr([]string{"1", "2", "3", "4"}[:k]...)
+	vxPreemptBudget(vxGet("preempt"))
+	kind := vxRun(func() { wf.Run() })
+	vxReach("ran")
+	vxAssert(kind == "returned", "C07.k-fitting-go-tasks-run-simultaneously")
+	vxAssert(n == k, "C07.every-task-ran-once")
+}
